@@ -11,11 +11,22 @@ import (
 	wal "github.com/hashicorp/raft-wal"
 
 	"verif/harness/core"
+	"verif/shim/vsched"
 	"verif/simdisk"
 )
 
 func init() {
-	engines["C12"] = runCodec
+	engines["C12"] = func() *ShardResult {
+		// scheduler part first: the enumeration part runs the WAL free (real goroutines), and a
+		// free goroutine must never meet an installed scheduler
+		total := *fBudget
+		*fBudget = total / 2
+		res := newResult()
+		res.merge(runSched("C12"), "sched_")
+		*fBudget = total
+		res.merge(runCodec(), "")
+		return res
+	}
 	engines["C15"] = runSizes
 }
 
@@ -208,7 +219,11 @@ func storeGetAndAlias(res *ShardResult, add func(string, string, map[string]inte
 		add("internal", "INTERNAL open: "+err.Error(), nil)
 		return
 	}
-	defer sys.W.Close()
+	defer func() {
+		if sys.W != nil {
+			sys.W.Close()
+		}
+	}()
 	var want []*raft.Log
 	idx := uint64(1)
 	tmn := timeMenu()
@@ -400,6 +415,10 @@ func runSizes() *ShardResult {
 	res.Bounds["batch_positions"] = positions
 	n := 0
 	outcomes := map[string]bool{}
+	if *fShard == 1%*fNShards {
+		// runs under the scheduler: before any free-running WAL of this process exists
+		hugeBatchThenClose(res, add)
+	}
 	for _, seg := range segSizes {
 		for _, sz := range sizes {
 			for _, pos := range positions {
@@ -536,4 +555,81 @@ func sizeCase(res *ShardResult, add func(string, string, map[string]interface{})
 	}
 	sys.W.Close()
 	return "refused"
+}
+
+// hugeBatchThenClose: one batch of several large entries (each well below the
+// maximum, together more than a segment plus 64 MiB) seals the tail; the WAL is
+// closed while the rotation is still queued, so the next Open goes through tail
+// recovery of that sealed segment. Everything acknowledged must read back.
+func hugeBatchThenClose(res *ShardResult, add func(string, string, map[string]interface{})) {
+	for _, seg := range []int{4096, 1 << 20} {
+		res.Counts["evaluations"]++
+		res.Counts["transitions"]++
+		res.Counts["traces_validated"]++
+		res.Counts["distinct_nontrivial"]++
+		desc := map[string]interface{}{"segment_size": seg, "batch": "4 x 17 MiB in one StoreLogs, Close before the rotation ran, reopen"}
+		sys := core.Mount(simdisk.NewState(), core.Config{SegSize: seg})
+		sys.Disk.NoLog = true
+		mk := func(idx uint64, n int) *raft.Log {
+			l := core.MkLog(idx, 4, 8)
+			b := make([]byte, n)
+			for i := 0; i < n; i += 4099 {
+				b[i] = byte(i>>4) + 1
+			}
+			b[n-1] = 0xAB
+			l.Data = b
+			return l
+		}
+		want := []*raft.Log{core.MkLog(1, 0, 8), mk(2, 17<<20), mk(3, 17<<20), mk(4, 17<<20), mk(5, 17<<20)}
+		var msgs []string
+		vr := vsched.Run(vsched.DefaultChooser{}, 0, false, func() {
+			if err := sys.Open(); err != nil {
+				msgs = append(msgs, "INTERNAL open: "+err.Error())
+				return
+			}
+			c0 := *want[0]
+			if err := sys.W.StoreLog(&c0); err != nil {
+				msgs = append(msgs, "small append failed: "+err.Error())
+				return
+			}
+			vsched.Quiesce()
+			var batch []*raft.Log
+			for _, l := range want[1:] {
+				c := *l
+				batch = append(batch, &c)
+			}
+			if err := sys.W.StoreLogs(batch); err != nil {
+				msgs = append(msgs, "huge batch refused: "+err.Error())
+				return
+			}
+			// no Quiesce: the rotation goroutine has not run yet
+			sys.W.Close()
+			vsched.Quiesce()
+			if err := sys.Open(); err != nil {
+				msgs = append(msgs, "reopen failed: "+err.Error())
+				return
+			}
+			vsched.Quiesce()
+			li, _ := sys.W.LastIndex()
+			if li != 5 {
+				msgs = append(msgs, fmt.Sprintf("after a batch of 4 x 17 MiB entries was acknowledged, Close before the rotation and reopen: LastIndex = %d, want 5", li))
+			}
+			for _, l := range want {
+				var g raft.Log
+				if err := sys.W.GetLog(l.Index, &g); err != nil {
+					msgs = append(msgs, fmt.Sprintf("acknowledged entry %d unreadable after reopen: %v", l.Index, err))
+				} else if d := sameLog(l, &g); d != "" {
+					msgs = append(msgs, fmt.Sprintf("acknowledged entry %d altered after reopen: %s", l.Index, d))
+				}
+			}
+			sys.W.Close()
+		})
+		for _, p := range vr.Panics {
+			msgs = append(msgs, "panic: "+p.Val)
+		}
+		sys.Unmount()
+		for _, m := range msgs {
+			add("huge-batch|"+fmt.Sprint(seg)+"|"+m, fmt.Sprintf("segment %d: %s", seg, m), desc)
+		}
+	}
 }
